@@ -125,6 +125,11 @@ pub fn is_authorized_batched(
         // check that all requested entities were loaded and return error otherwise
 
         for (id, e_option) in loaded_entities {
+            // Loading more entities than requested is allowed; that includes entities an
+            // earlier iteration already loaded (e.g. a shared ancestor returned again)
+            if entities.contains_entity(&id) {
+                continue;
+            }
             match e_option {
                 Some(e) => {
                     entities.add_entities(
